@@ -396,6 +396,11 @@ def scripted_refit(ctx, rep):
         first = keys[0]
         if first != "nan" and (got_f == "nan" or got_f > first):
             rep.violate(f"re-fitting ended with fitness {got_f} although the first fit gave {first}", "C06:refit-worse", case)
+        # theorem C06.refit_best_of_all: with a numeric first fit the stored fitness is the best of ALL numeric attempts
+        if first != "nan" and got_f != "nan" and got_f != "none":
+            better = [k for k in keys if k != "nan" and k < got_f]
+            if better:
+                rep.violate(f"re-fitting stored fitness {got_f} although an attempt reached {min(better)}", "C06:refit-not-best", case)
         if got_f != "nan" and (len(got_c) != 1 or not (0 <= got_c[0] < n) or keys[got_c[0]] != got_f):
             rep.violate(f"stored fitness {got_f} does not belong to the stored constants {got_c}", "C06:refit-mismatch", case)
         if ctx.driver_ok:
